@@ -222,6 +222,13 @@ func (tw *tokenWorld) checkIssued(desc string, tr *world.TokenResponse, issued, 
 		if actor != nil && t.Actor != actor.subject {
 			tw.viol("C15", "issued-actor", "token-exchange/access", "%s: issued token actor %q, actor token subject %q", desc, t.Actor, actor.subject)
 		}
+		// a JWT access token shows the actor the policy decided: with the ActChain policy the nested delegation
+		if pl := world.JWTPayload(tr.AccessToken); pl != nil && actor != nil && w.Store.Policy.ActChain {
+			tw.o.Probe("act-chain-decided")
+			if want := fmt.Sprint(world.ActChainOf(actor.subject)); fmt.Sprint(pl["act"]) != want {
+				tw.viol("C15", "issued-actor", "token-exchange/act-claim", "%s: the issued JWT carries act %v, the policy decided %v", desc, pl["act"], want)
+			}
+		}
 		if oidc.TokenType(issued) == oidc.RefreshTokenType {
 			if tr.RefreshToken == "" || !w.Store.RefreshLive(tr.RefreshToken) {
 				tw.viol("C15", "issued-not-live", "token-exchange/refresh", "%s: issued_token_type is refresh_token but the response has no live refresh token", desc)
@@ -267,6 +274,7 @@ func (tw *tokenWorld) policy(ch *kernel.Chooser) string {
 		}
 	case 3:
 		p.DropScopes = ch.Subset([]string{oidc.ScopeEmail, "api"})
+		p.ActChain = ch.Bool(2, 3)
 	default:
 		p.Veto = false
 	}
